@@ -644,14 +644,62 @@ End WithMatcher.
 Definition sort_changes (ch : changes) : changes :=
   stable_sort (fun a b => is_lt (str_compare (fst a) (fst b))) ch.
 
+(* conflictingPath: the static conflict check at the top of mongokit.Apply.
+   Two named paths conflict when, segment by segment, they agree up to the end
+   of the shorter one — or up to a position where one has a positional
+   operator ($...) and the other a fixed segment.  Two different fixed
+   segments, or two different positional segments, end the comparison without
+   a conflict. *)
+Fixpoint static_conflict (p q : path) : bool :=
+  match p, q with
+  | [], _ | _, [] => true
+  | a :: p', b :: q' =>
+      if String.eqb a b then static_conflict p' q'
+      else xorb (starts_dollar a) (starts_dollar b)
+  end.
+
+(* the paths an update names, in order: every field of every operator
+   document, and for $rename also the target *)
+Definition named_paths (u : doc) : list string :=
+  flat_map (fun kv =>
+              match snd kv with
+              | VDoc fields =>
+                  if starts_dollar (fst kv) then
+                    flat_map (fun fv =>
+                                fst fv ::
+                                match snd fv with
+                                | VString target => if String.eqb (fst kv) "$rename" then [target] else []
+                                | _ => []
+                                end) fields
+                  else []
+              | _ => []
+              end) u.
+
+(* the first pair (i < j) in conflict; the later path is reported *)
+Fixpoint first_conflict (names : list string) : option string :=
+  match names with
+  | [] => None
+  | n :: t =>
+      match find (fun m => static_conflict (split_path n) (split_path m)) t with
+      | Some m => Some m
+      | None => first_conflict t
+      end
+  end.
+
+Definition conflicting_path (u : doc) : option string := first_conflict (named_paths u).
+
 (* mongokit.Apply *)
 Definition apply_with (matchf : doc -> doc -> res bool)
            (d q u : doc) (upsert : bool) (filters : list doc) (now : Z) : res (doc * changes) :=
   match u with
   | [] => Err                                        (* empty update document *)
   | _ =>
-      let* (d', ch) := apply_ops matchf upsert now filters u (d, []) in
-      Ok (d', sort_changes ch)
+      match conflicting_path u with
+      | Some _ => Err                                (* conflicting key *)
+      | None =>
+          let* (d', ch) := apply_ops matchf upsert now filters u (d, []) in
+          Ok (d', sort_changes ch)
+      end
   end.
 
 (* ------------------------------------------------------------------ *)
